@@ -344,10 +344,22 @@ fn do_write(s: &Spec, cap: usize, o: &mut Oracle) -> String {
                 o.fail("C05/write-overruns-buffer", format!("value={} cap={}", spec_str(s), cap));
             }
             if valid {
+                // C05 mechanism: compression is used iff it is strictly shorter, and flagged in the header
+                if let Spec::Chunks(_, token, _, _, d) = s {
+                    let mut plain = d.clone();
+                    if let Some(t) = token {
+                        plain.extend_from_slice(&t.0);
+                    }
+                    let cl = HUFFMAN.compressed_len(&plain);
+                    let flagged = bytes[0] & 0x80 != 0;
+                    if flagged != (cl < plain.len()) || bytes.len() != HEADER_SIZE + if flagged { cl } else { plain.len() } {
+                        o.fail("C05/compressed-iff-strictly-shorter", format!("value={} plain={} compressed={} flagged={} written={}", &spec_str(s)[..spec_str(s).len().min(80)], plain.len(), cl, flagged, bytes.len()));
+                    }
+                }
                 if bytes.len() > MAX_PACKETSIZE {
                     o.fail("C05/valid-packet-too-long", format!("value={} len={}", spec_str(s), bytes.len()));
                 }
-                for scap in [MAX_PACKETSIZE, 2048] {
+                for scap in [MAX_PACKETSIZE, 2048, 4096] {
                     let mut scratch = vec![0u8; scap];
                     let mut ws: Vec<Warning> = vec![];
                     let want = spec_str(s);
@@ -977,17 +989,10 @@ fn gen_lines(tier: &str, seed: u64, w: &mut Vec<u8>) {
                 writeln!(w, "hash_read {} 1400 - {} {} 1 -", h, lo, lo + 32).unwrap();
             }
             if thorough {
-                // all three-byte datagrams.  A header with the compression flag (and without the
-                // connless flag) makes the reader decompress an empty stream up to the capacity, which
-                // costs milliseconds in the model: for those first bytes the ack byte is restricted to
-                // {0x00, 0xff} (the second byte does not influence the control flow).
+                // all three-byte datagrams (the drivers evaluate the reader with the proven-equal
+                // `decompressFast`, so the headers that make it decompress an empty stream are affordable)
                 for b0 in 0..256u32 {
-                    if b0 & 0x80 != 0 && b0 & 0x20 == 0 {
-                        writeln!(w, "hash_read {} 1400 {:02x}00 0 256 0 -", h, b0).unwrap();
-                        writeln!(w, "hash_read {} 1400 {:02x}ff 0 256 0 -", h, b0).unwrap();
-                    } else {
-                        writeln!(w, "hash_read {} 1400 - {} {} 2 -", h, b0, b0 + 1).unwrap();
-                    }
+                    writeln!(w, "hash_read {} 1400 - {} {} 2 -", h, b0, b0 + 1).unwrap();
                 }
             } else {
                 // all packet-header first bytes × ack byte ∈ boundary × all num_chunks
@@ -1241,6 +1246,54 @@ for kind in 0..6u64 {
                 writeln!(w, "din 1400 {}", to_hex(&bytes)).unwrap();
                 writeln!(w, "iter {} {}", rng.below(5), to_hex(&bytes[..n.min(64)])).unwrap();
             }
+        }
+        // ---- deterministic cases for realistic breaking edits (quick tier must reach them) ----
+        // compressible chunk packets WITH token (token appended before compression)
+        for n in [8usize, 50, 200, 1000, 1393] {
+            for d in [vec![0u8; n], (0..n).map(|i| (i % 3) as u8).collect::<Vec<u8>>()] {
+                let s = Spec::Chunks(513, Some(Token([0x12, 0x34, 0x56, 0x78])), n % 2 == 0, 1, d);
+                writeln!(w, "write 1400 {}", spec_str(&s)).unwrap();
+                if let Some(bytes) = write_spec(&s) {
+                    for cap in [1400usize, 2048, 4096] {
+                        writeln!(w, "read t {} {}", cap, to_hex(&bytes)).unwrap();
+                    }
+                }
+            }
+        }
+        // compressed payloads expanding past MAX_PACKETSIZE - HEADER_SIZE, scratch buffers as the callers
+        // use them (2048, 4096), with and without a token hint
+        for n in [1396usize, 1397, 1398, 1399, 1401, 1500, 2000, 2044, 2045, 2046, 4090, 4093, 4094, 5000] {
+            for d in [vec![0u8; n], (0..n).map(|i| (i % 2) as u8).collect::<Vec<u8>>()] {
+                let mut bytes = vec![0x80u8, 0x00, 0x01];
+                bytes.extend(HUFFMAN.compress_into_vec(&d));
+                if bytes.len() <= MAX_PACKETSIZE {
+                    for cap in [1400usize, 2048, 4096] {
+                        writeln!(w, "read f {} {}", cap, to_hex(&bytes)).unwrap();
+                        writeln!(w, "read t {} {}", cap, to_hex(&bytes)).unwrap();
+                    }
+                    writeln!(w, "din 2048 {}", to_hex(&bytes)).unwrap();
+                }
+            }
+        }
+        // payload + token around the 2048-byte ArrayVec of ConnectedPacket::write (silent truncation)
+        for n in [2040usize, 2043, 2044, 2045, 2047, 2048, 2049, 3000] {
+            for tok in [None, Some(Token([0xaa, 0xbb, 0xcc, 0xdd]))] {
+                let d: Vec<u8> = (0..n).map(|i| (i * 7 + 1) as u8).collect();
+                writeln!(w, "write 4096 {}", spec_str(&Spec::Chunks(2, tok, false, 1, d))).unwrap();
+                writeln!(w, "write 4096 {}", spec_str(&Spec::Chunks(2, tok, false, 1, vec![0u8; n]))).unwrap();
+            }
+        }
+        // acks and sequence numbers >= 256 through whole packets
+        for ack in [255u16, 256, 257, 511, 512, 767, 768, 1023] {
+            let mut buf: Vec<u8> = Vec::with_capacity(64);
+            write_chunk(b"ab", Some((ack, ack % 2 == 0)), &mut buf).unwrap();
+            write_chunk(b"", Some((1023 - ack, false)), &mut buf).unwrap();
+            let s = Spec::Chunks(ack, None, false, 2, buf.clone());
+            writeln!(w, "write 1400 {}", spec_str(&s)).unwrap();
+            if let Some(bytes) = write_spec(&s) {
+                writeln!(w, "read f 1400 {}", to_hex(&bytes)).unwrap();
+            }
+            writeln!(w, "wchunks 64 {}.1:6162 {}.0:-", ack, 1023 - ack).unwrap();
         }
         // D17 band: connless datagrams around the writer's limit
         for n in 1385..=1401usize {
